@@ -89,6 +89,13 @@ pub fn execute(x: &Exprs, st: &J) -> J {
     x.bind("n", int_value(n));
   }
   match op {
+    "repr" => {
+      let what = st["what"].as_str().unwrap_or("add");
+      rec["obs"] = x.eval(what);
+      x.bind("a", num_value(&st["a2"]));
+      x.bind("b", num_value(&st["b2"]));
+      rec["obs2"] = x.eval(what);
+    }
     "cmp" => {
       for k in ["lt", "le", "gt", "ge", "eq", "ne"] {
         rec[k] = json!(x.code(k));
@@ -228,6 +235,38 @@ pub fn check(mut ctx: Ctx, replay: Option<J>) -> ! {
         stim.push(json!({"op": "pow", "a": a, "b": b}));
       }
     }
+    // representation independence: operands of equal value but different scale (trailing zeros in the
+    // coefficient against a larger exponent) must give results of equal value
+    let pad = |n: &J, k: usize| -> Option<J> {
+      let c = n["c"].as_array()?.clone();
+      if c.is_empty() || c.len() + k > 34 {
+        return None;
+      }
+      let mut c2 = c;
+      c2.extend(std::iter::repeat(json!(0)).take(k));
+      Some(json!({"s": n["s"], "c": c2, "e": n["e"].as_i64()? - k as i64}))
+    };
+    let digits = |s: &str| -> Vec<u8> { s.bytes().map(|b| b - b'0').collect() };
+    let bases = [json!({"s": 0, "c": digits("1000000123456789012345678901234567"), "e": -33}), json!({"s": 0, "c": digits("9999999"), "e": -7}), json!({"s": 0, "c": digits("10000001"), "e": -7}), json!({"s": 0, "c": [2], "e": 0}), json!({"s": 1, "c": [1, 5], "e": -1})];
+    for base in &bases {
+      for (c, e) in [(vec![1u8], 5i64), (vec![1], 6), (vec![2, 5], 4), (vec![1], 3), (vec![3], 1), (vec![7], 2)] {
+        let reduced = json!({"s": 0, "c": c, "e": e});
+        if let Some(plain) = pad(&reduced, e as usize) {
+          stim.push(json!({"op": "repr", "what": "pow", "a": base, "b": plain, "a2": base, "b2": reduced}));
+        }
+      }
+    }
+    let mut n_repr = 0;
+    for (i, a) in wide.iter().enumerate() {
+      let b = &partners[i % partners.len()];
+      for (k, op) in ["add", "sub", "mul", "div"].iter().enumerate() {
+        if let (Some(a2), Some(b2)) = (pad(a, 1 + (i + k) % 3), pad(b, 1 + (i + 2 * k) % 4)) {
+          stim.push(json!({"op": "repr", "what": op, "a": a, "b": b, "a2": a2, "b2": b2}));
+          n_repr += 1;
+        }
+      }
+    }
+    ctx.cov("representation_pairs", json!(n_repr + 30));
     ctx.cov("generated_by_tlc", json!(stim.len()));
     // seeded random operands
     let mut rng = Rng::new(ctx.seed);
